@@ -44,13 +44,64 @@ static_assert((char)0x80 < 0, "char is signed");
 // ------------------------------------------------------------------ buffers
 // exactly sized heap copy; for n == 0 the pointer is one past a 1-byte block,
 // so that even reading *p is reported (hv::exact_buf would give a valid byte)
+// ---- round 3: long-lived argument buffers at FIXED addresses (op `re`)
+// While g_arena is set, every xbuf / command name of a call is placed into the
+// next slot of one long-lived block instead of a fresh allocation: the k-th
+// buffer of every call of a case has the same address, only the contents (and
+// the size) change between the calls.  The extent stays exact: everything of a
+// slot outside [p, p+n) is poisoned by hand, so ASan reports an access in front
+// of or behind the extent exactly as for a heap block.
+#if defined(__SANITIZE_ADDRESS__)
+#include <sanitizer/asan_interface.h>
+#define C19_POISON(p, n) __asan_poison_memory_region((p), (n))
+#define C19_UNPOISON(p, n) __asan_unpoison_memory_region((p), (n))
+#else
+#define C19_POISON(p, n) ((void)0)
+#define C19_UNPOISON(p, n) ((void)0)
+#endif
+struct arena
+{
+    static const size_t NSLOT = 48, SLOT = 16384, RED = 64;
+    char *block;
+    size_t next = 0;
+    arena()
+    {
+        block = (char *)aligned_alloc(64, NSLOT * SLOT);
+        C19_POISON(block, NSLOT * SLOT);
+    }
+    ~arena()
+    {
+        C19_UNPOISON(block, NSLOT * SLOT);
+        free(block);
+    }
+    void rewind() { next = 0; }
+    // the next slot with exactly n addressable bytes, or 0 when it does not fit
+    char *place(size_t n)
+    {
+        if (next >= NSLOT || n > SLOT - 2 * RED)
+            return 0;
+        char *slot = block + next++ * SLOT;
+        C19_POISON(slot, SLOT);
+        C19_UNPOISON(slot + RED, n);
+        return slot + RED;
+    }
+};
+static arena *g_arena = 0;
+
 struct xbuf
 {
     char *base;
     char *p;
     size_t n;
-    explicit xbuf(const str &s) : n(s.size())
+    bool own = true;
+    void alloc()
     {
+        if (g_arena && (p = g_arena->place(n)))
+        {
+            base = 0;
+            own = false;
+            return;
+        }
         if (n == 0)
         {
             base = (char *)malloc(1);
@@ -60,24 +111,25 @@ struct xbuf
         {
             base = (char *)malloc(n);
             p = base;
-            memcpy(p, s.data(), n);
         }
+    }
+    explicit xbuf(const str &s) : n(s.size())
+    {
+        alloc();
+        if (n)
+            memcpy(p, s.data(), n);
     }
     xbuf(size_t size, int fill) : n(size)
     {
-        if (n == 0)
-        {
-            base = (char *)malloc(1);
-            p = base + 1;
-        }
-        else
-        {
-            base = (char *)malloc(n);
-            p = base;
+        alloc();
+        if (n)
             memset(p, fill, n);
-        }
     }
-    ~xbuf() { free(base); }
+    ~xbuf()
+    {
+        if (own)
+            free(base);
+    }
     xbuf(const xbuf &) = delete;
     str get() const { return str(p, n); }
     igris::buffer buf() const { return igris::buffer((const void *)p, n); }
@@ -117,8 +169,9 @@ static toks list_arg(const std::string &w) // "61,62" or "-" -> {"a","b"} / {}
 static str upto_nul(const str &s) { return s.substr(0, s.find('\0')); }
 
 // ---------------------------------------------------------------- references
-static const str WS_ARGV = str(" \r\n\t");
-static const str WS_TRIM = str(" \n\r\t");
+// init_priority: constructed in front of the pre-main runner (round 3) that uses them
+static const str WS_ARGV __attribute__((init_priority(101))) = str(" \r\n\t");
+static const str WS_TRIM __attribute__((init_priority(101))) = str(" \n\r\t");
 
 // maximal runs of characters not in `delims`
 static toks ref_runs(const str &s, const str &delims)
@@ -270,7 +323,7 @@ static int ref_cmp(const str &a, const str &b)
 
 // ---------------------------------------------------------------- shell glue
 static int g_called, g_argc, g_max;
-static toks g_args;
+static toks g_args __attribute__((init_priority(101)));
 static char *g_out;
 static void rec(int k, int argc, char **argv)
 {
@@ -301,10 +354,14 @@ struct names_keeper
     std::vector<char *> ptrs;
     const char *add(const str &s)
     {
-        char *p = (char *)malloc(s.size() + 1);
+        char *p = g_arena ? g_arena->place(s.size() + 1) : 0;
+        bool own = !p;
+        if (own)
+            p = (char *)malloc(s.size() + 1);
         memcpy(p, s.data(), s.size());
         p[s.size()] = 0;
-        ptrs.push_back(p);
+        if (own)
+            ptrs.push_back(p);
         return p;
     }
     ~names_keeper()
@@ -506,6 +563,63 @@ static void run_rsh(bool multi, const std::vector<std::string> &w, out &o)
 }
 
 
+
+// ================================================================ round 3
+static void run_op(const std::vector<std::string> &w, const std::string &, out &o);
+static uint32_t fnv(const str &s)
+{
+    uint32_t h = 2166136261u;
+    for (unsigned char c : s)
+        h = (h ^ c) * 16777619u;
+    return h;
+}
+static str digest(const str &s) { return std::to_string(s.size()) + " " + hexn(fnv(s), 8); }
+static void add_tags(out &o, const out &sub)
+{
+    size_t i = 0;
+    while (i < sub.tags.size())
+    {
+        size_t j = sub.tags.find(',', i);
+        str t = sub.tags.substr(i, j == str::npos ? j : j - i);
+        if (("," + o.tags + ",").find("," + t + ",") == str::npos)
+            o.tag(t.c_str());
+        if (j == str::npos)
+            break;
+        i = j + 1;
+    }
+}
+
+// ---- calls BEFORE main(): an object with init_priority runs a fixed list of ops from its
+// constructor (the references it needs are constructed with a smaller priority number in
+// front of it) and keeps the result lines; `premain <k> <op>` reports them later.
+static const char *const PREMAIN[] = {
+    "splitc 2061206220 20", "splitd 612c623b63 2c3b", "cmdargs 612022622063222064", "trim 20096120620d0a", "join 2c 61 62 63",
+    "joinf 2c20 5b 5d 61 62", "memmem 6162616263 6263", "replace 6161626161 6161 63", "rsub 5 61626162 62 6363", "argv 206120620963 2",
+    "argvn 6120622063 3", "msh 2062206120 61,62", "msht 6220 61 62", "rsh 6120622063 1 61", "rsht 6220 0:61 1:62",
+    "pnext 2f2e2f612f62", "piter 2f612f2f62", "pcmp 612f 62", "prem 2f612f62 2f61", "creader 610d0a620a63",
+    "cskipws 20090a61", "lenfirst 616220", "pabs 2f61", "psimple 6162", "pdd 2e2e2f", "plast 615c62", "pnext0 2e2f61", "beq 6162 6162",
+    "beqz 6162 6162", "dstr 5c0a80", "mhelp 61:68", "rhelp 9 61:68", "rhelpt 9 61:68", "rshv 0 61 61 62"};
+static const size_t NPREMAIN = sizeof(PREMAIN) / sizeof(PREMAIN[0]);
+struct premain_runner
+{
+    std::vector<out> res;
+    bool ran_before_main = false;
+    premain_runner();
+};
+static bool g_in_main = false;
+premain_runner::premain_runner()
+{
+    ran_before_main = !g_in_main;
+    for (size_t k = 0; k < NPREMAIN; k++)
+    {
+        out o;
+        run_op(words(PREMAIN[k]), PREMAIN[k], o);
+        res.push_back(o);
+    }
+}
+
+static bool run_op3(const std::vector<std::string> &w, out &o);
+
 // ================================================================ extension
 // help tables: "_" = empty table, else entries "name[:help]" (hex or "-")
 struct hentry
@@ -549,7 +663,7 @@ static str ref_help(const std::vector<hentry> &t)
     }
     return r;
 }
-static toks g_pieces;
+static toks g_pieces __attribute__((init_priority(101)));
 static void *g_priv;
 static void help_write(void *priv, const char *p, size_t n)
 {
@@ -947,6 +1061,8 @@ static bool run_op2(const std::vector<std::string> &w, out &o)
 
 static void run_op(const std::vector<std::string> &w, const std::string &, out &o)
 {
+    if (run_op3(w, o))
+        return;
     if (run_op2(w, o))
         return;
     const std::string &op = w[0];
@@ -998,8 +1114,15 @@ static void run_op(const std::vector<std::string> &w, const std::string &, out &
         toks v;
         for (size_t i = 2; i < w.size(); i++)
             v.push_back(U(w[i]));
-        str got = igris::join(v, d[0]);
+        // round 3: the vector and its strings are long-lived objects whose contents are rewritten
+        static toks LV;
+        LV.resize(v.size());
+        for (size_t i = 0; i < v.size(); i++)
+            LV[i].assign(v[i]);
+        str got = igris::join(LV, d[0]);
         o.result = H(got);
+        if (LV != v)
+            o.fail("join changed its argument");
         if (got != ref_join(v, d))
             o.fail("join != intercalate");
         bool clean = !v.empty();
@@ -1025,7 +1148,13 @@ static void run_op(const std::vector<std::string> &w, const std::string &, out &
         for (size_t i = 4; i < w.size(); i++)
             v.push_back(U(w[i]));
         xbuf dz(cz(d)), prez(cz(pre)), postz(cz(post));
-        str got = igris::join(v.begin(), v.end(), (const char *)dz.p, (const char *)prez.p, (const char *)postz.p);
+        static toks LV;
+        LV.resize(v.size());
+        for (size_t i = 0; i < v.size(); i++)
+            LV[i].assign(v[i]);
+        str got = igris::join(LV.begin(), LV.end(), (const char *)dz.p, (const char *)prez.p, (const char *)postz.p);
+        if (LV != v)
+            o.fail("join(range) changed its argument");
         o.result = H(got);
         if (got != pre + ref_join(v, d) + post)
             o.fail("join(range) != prefix + intercalate + postfix");
@@ -1056,8 +1185,15 @@ static void run_op(const std::vector<std::string> &w, const std::string &, out &
     {
         str s = U(w[1]), a = U(w[2]), b = U(w[3]);
         // std::string arguments: exactly what the API takes
-        str got = igris::replace(s, a, b);
+        // round 3: long-lived std::string objects, contents rewritten between the calls
+        static str LS, LA, LB;
+        LS.assign(s);
+        LA.assign(a);
+        LB.assign(b);
+        str got = igris::replace(LS, LA, LB);
         o.result = H(got);
+        if (LS != s || LA != a || LB != b)
+            o.fail("replace changed an argument");
         str want = ref_replace(s, a, b);
         if (got != want)
             o.fail("replace " + H(got) + " != leftmost non-overlapping substitution " + H(want));
@@ -1157,7 +1293,7 @@ static void run_op(const std::vector<std::string> &w, const std::string &, out &
         toks walk;
         const char *q = b.p;
         unsigned l2;
-        for (int guard = 0; guard < 64 && (q = path_next(q, &l2)); guard++)
+        for (size_t guard = 0; guard < p.size() + 2 && (q = path_next(q, &l2)); guard++)
         {
             walk.push_back(str(q, l2));
             q += l2;
@@ -1185,10 +1321,12 @@ static void run_op(const std::vector<std::string> &w, const std::string &, out &
         // iterating visits exactly the nodes
         toks walk;
         const char *q = b.p;
-        for (int guard = 0; guard < 64 && q && *q; guard++)
+        for (size_t guard = 0; guard < p.size() + 2 && q && *q; guard++)
         {
-            str rest(q);
-            walk.push_back(rest.substr(0, rest.find('/')));
+            const char *e = q;
+            while (*e && *e != '/')
+                e++;
+            walk.push_back(str(q, e - q));
             q = path_iterate(q);
         }
         toks wn;
@@ -1325,6 +1463,185 @@ static void run_op(const std::vector<std::string> &w, const std::string &, out &
     o.result = "bad-op";
 }
 
+
+// ---------------------------------------------------------------- round 3 ops
+#include <thread>
+static premain_runner g_premain __attribute__((init_priority(102)));
+
+static std::vector<std::vector<std::string>> split_calls(const std::vector<std::string> &w, size_t from)
+{
+    std::vector<std::vector<std::string>> r(1);
+    for (size_t i = from; i < w.size(); i++)
+        if (w[i] == "/")
+            r.emplace_back();
+        else
+            r.back().push_back(w[i]);
+    return r;
+}
+
+static bool run_op3(const std::vector<std::string> &w, out &o)
+{
+    const std::string &op = w[0];
+    if (op == "re")
+    {
+        // re <call> / <call> / ...   one case = ONE set of long-lived argument buffers at fixed
+        // addresses; every call rewrites their contents.  A call that starts with @t runs on a
+        // second thread.  Every call is judged on its own by the oracle of its routine; the model
+        // treats the calls as independent.
+        static arena A;
+        A.rewind();
+        str res;
+        bool first = true;
+        for (auto &c : split_calls(w, 1))
+        {
+            bool thr = !c.empty() && c[0] == "@t";
+            std::vector<std::string> cw(c.begin() + (thr ? 1 : 0), c.end());
+            out sub;
+            if (cw.empty() || cw[0] == "re" || cw[0] == "long" || cw[0] == "premain")
+                sub.result = "bad-op";
+            else
+            {
+                A.rewind();
+                g_arena = &A;
+                if (thr)
+                {
+                    std::thread t([&]() { run_op(cw, "", sub); });
+                    t.join();
+                }
+                else
+                    run_op(cw, "", sub);
+                g_arena = 0;
+            }
+            res += (first ? "" : " / ") + sub.result;
+            first = false;
+            if (sub.oracle != "ok")
+                o.fail("call `" + cw[0] + "` of the case: " + sub.oracle.substr(5));
+            add_tags(o, sub);
+            if (thr) o.tag("re-second-thread");
+        }
+        o.result = res;
+        o.tag("re-fixed-addresses");
+        return true;
+    }
+    if (op == "long")
+    {
+        // long <count> <unit> <tail> <routine> <args, one of them "@">: "@" = unit x count + tail.
+        // The result is the digest (length, FNV-1a) of the routine's result line.
+        size_t count = strtoul(w[1].c_str(), 0, 10);
+        str unit = U(w[2]), tail = U(w[3]), big;
+        big.reserve(unit.size() * count + tail.size());
+        for (size_t i = 0; i < count; i++)
+            big += unit;
+        big += tail;
+        std::vector<std::string> cw(w.begin() + 4, w.end());
+        for (auto &x : cw)
+            if (x == "@")
+                x = H(big);
+        out sub;
+        if (cw.empty() || cw[0] == "re" || cw[0] == "long" || cw[0] == "premain")
+            sub.result = "bad-op";
+        else
+            run_op(cw, "", sub);
+        o.result = digest(sub.result);
+        o.oracle = sub.oracle;
+        o.tags = sub.tags;
+        o.tag(big.size() >= 300 * 1024 ? "long-300KiB" : big.size() >= 65536 ? "long-64KiB" : "long");
+        return true;
+    }
+    if (op == "premain")
+    {
+        // premain <k> <op>: the result the k-th op gave when it ran BEFORE main()
+        size_t k = strtoul(w[1].c_str(), 0, 10);
+        str line;
+        for (size_t i = 2; i < w.size(); i++)
+            line += (i > 2 ? " " : "") + w[i];
+        if (k >= NPREMAIN || line != PREMAIN[k])
+        {
+            o.result = "bad-op";
+            return true;
+        }
+        const out &pre = g_premain.res[k];
+        o.result = pre.result;
+        o.oracle = pre.oracle;
+        o.tags = pre.tags;
+        if (!g_premain.ran_before_main)
+            o.fail("the pre-main runner did not run before main");
+        out now;
+        run_op(words(line), line, now);
+        if (now.result != pre.result)
+            o.fail("before main(): " + pre.result + ", inside main(): " + now.result);
+        o.tag("premain");
+        return true;
+    }
+    if (op == "consts")
+    {
+        // constants and widths the model embeds, read out of the compiled code
+        auto argc_of = [&](bool r) {
+            names_keeper nk;
+            g_called = -1;
+            g_argc = 0;
+            g_args.clear();
+            int ret = 0;
+            xbuf line(cz("a b c d e f g h i j k l m n"));
+            if (r)
+            {
+                rshell_command t[2] = {{nk.add("a"), RH[0], 0}, {0, 0, 0}};
+                xbuf ob(4, 0);
+                rshell_execute(line.p, t, &ret, 0, ob.p, 4);
+            }
+            else
+            {
+                mshell_command t[2] = {{nk.add("a"), MH[0], 0}, {0, 0, 0}};
+                mshell_execute(line.p, t, &ret);
+            }
+            return g_argc;
+        };
+        unsigned plen = 0;
+        o.result = "argcmax_m=" + std::to_string(argc_of(false)) + " argcmax_r=" + std::to_string(argc_of(true)) + " enoent=" + std::to_string(ENOENT) +
+                   " ok=" + std::to_string(SSHELL_OK) + " plen=" + std::to_string(sizeof(plen) * 8) + " size_t=" + std::to_string(sizeof(size_t) * 8) +
+                   " bufsize=" + std::to_string(sizeof(decltype(igris::buffer().size())) * 8) + " int=" + std::to_string(sizeof(int) * 8) +
+                   " char_signed=" + std::to_string((int)((char)0x80 < 0)) + " isprint=";
+        // the isprint table dstring relies on, as a 256-bit set
+        str bits;
+        for (int c = 0; c < 256; c += 8)
+        {
+            int b = 0;
+            for (int k = 0; k < 8; k++)
+                if (isprint((int)(char)(c + k)) )
+                    b |= 1 << k;
+            bits.push_back((char)b);
+        }
+        o.result += H(bits);
+        static_assert(std::is_same<decltype(path_next((const char *)0, &plen)), const char *>::value, "path_next(const char*, unsigned*)");
+        o.tag("consts");
+        return true;
+    }
+    if (op == "rsubip")
+    {
+        // rsubip <block> <inlen> <sub> <rep>: replace_substrings IN PLACE, buffer == input ==
+        // a block of <block> bytes (maxsize = block) whose first <inlen> bytes are the input.
+        // Only for replen == sublen (or no occurrence): then every memcpy has dst == src.
+        str blk = U(w[1]);
+        size_t inlen = strtoul(w[2].c_str(), 0, 10);
+        str a = U(w[3]), b = U(w[4]);
+        xbuf m(blk), sub(a), rep(b);
+        str in = blk.substr(0, inlen);
+        replace_substrings(m.p, m.n, m.p, inlen, sub.p, sub.n, rep.p, rep.n);
+        str got = m.get();
+        o.result = H(got);
+        str full = ref_replace(in, a, b);
+        str want = full.substr(0, std::min(full.size(), blk.size() - 1)) + str(1, '\0');
+        if (want.size() < blk.size())
+            want += blk.substr(want.size());
+        if (got != want)
+            o.fail("in-place replace_substrings " + H(got) + " != substitution + NUL, rest of the block untouched " + H(want));
+        o.tag(full == in ? "rsubip-no-hit" : "rsubip-hit");
+        if (full.size() + 1 > blk.size()) o.tag("rsubip-truncated");
+        return true;
+    }
+    return false;
+}
+
 // ---------------------------------------------------------------- gen
 static void all_strings(const str &alpha, int maxlen, const std::function<void(const str &)> &f, int minlen = 0)
 {
@@ -1361,7 +1678,53 @@ static str names_arg(const toks &v)
         r += (i ? "," : "") + H(v[i]);
     return r;
 }
-#define P(...) printf(__VA_ARGS__)
+// every generated line is printed; lines outside recorded findings are also kept (a bounded
+// reservoir per routine) as the material of the fixed-address cases of round 3 (gen3)
+#include <cstdarg>
+#include <map>
+static std::map<std::string, std::vector<std::string>> g_pool;
+static std::map<std::string, unsigned long> g_seen;
+static hv::rng g_pool_rng(12345);
+static bool g_pool_on = true;
+static void emitf(const char *fmt, ...) __attribute__((format(printf, 1, 2)));
+static void emitf(const char *fmt, ...)
+{
+    va_list ap, ap2;
+    va_start(ap, fmt);
+    va_copy(ap2, ap);
+    int n = vsnprintf(0, 0, fmt, ap);
+    va_end(ap);
+    std::string buf((size_t)n + 1, 0);
+    vsnprintf(&buf[0], buf.size(), fmt, ap2);
+    va_end(ap2);
+    buf.resize((size_t)n);
+    fputs(buf.c_str(), stdout);
+    if (!g_pool_on)
+        return;
+    size_t i = 0;
+    while (i < buf.size())
+    {
+        size_t j = buf.find('\n', i);
+        if (j == std::string::npos)
+            j = buf.size();
+        std::string line = buf.substr(i, j - i);
+        i = j + 1;
+        if (line.empty() || line[0] == '@' || line.size() > 160)
+            continue;
+        std::string op = line.substr(0, line.find(' '));
+        auto &v = g_pool[op];
+        unsigned long k = ++g_seen[op];
+        if (v.size() < 600)
+            v.push_back(line);
+        else
+        {
+            unsigned long x = g_pool_rng.below(k);
+            if (x < v.size())
+                v[x] = line;
+        }
+    }
+}
+#define P(...) emitf(__VA_ARGS__)
 static const char *F_NUL = "@F:C19-split-delims-nul ";
 
 static const char *F_ARGVN = "@F:C19-argvn-nul-not-terminator ";
@@ -1579,6 +1942,165 @@ static void gen2(rng &r, bool th)
     }
 }
 
+
+// ---------------------------------------------------------------- gen (round 3)
+static void gen3(rng &r, bool th)
+{
+    g_pool_on = false;
+    P("consts\n");
+    for (size_t k = 0; k < NPREMAIN; k++)
+        P("premain %zu %s\n", k, PREMAIN[k]);
+    // (a) fixed-address cases.  split(buffer, delims): every ordered pair of delimiter strings of
+    //     the SAME length (same extent, same address, other contents) on lines that contain both
+    {
+        const std::vector<str> D1 = {",", ";", " ", "a"}, D2 = {",;", "; ", " ,", "a,"};
+        const std::vector<str> L = {"a,b;c,d", ";a, b;", "a b,c;d a", ",,;;", "abc"};
+        for (auto &l : L)
+            for (auto *D : {&D1, &D2})
+                for (auto &d1 : *D)
+                    for (auto &d2 : *D)
+                    {
+                        if (d1 == d2)
+                            continue;
+                        P("re splitd %s %s / splitd %s %s\n", H(l).c_str(), H(d1).c_str(), H(l).c_str(), H(d2).c_str());
+                        if (th || r.chance(40))
+                            P("re splitd %s %s / @t splitd %s %s / splitd %s %s / splitd %s %s\n", H(l).c_str(), H(d1).c_str(), H(L[r.below(L.size())]).c_str(),
+                              H(d2).c_str(), H(l).c_str(), H(d2).c_str(), H(L[r.below(L.size())]).c_str(), H(d1).c_str());
+                    }
+        // the same for every routine with pointer arguments: cases of 2..4 calls drawn from the
+        // lines the generators above produced for that routine (same roles -> same addresses),
+        // a call on a second thread in between, and cases that mix routines
+        std::vector<std::string> ops;
+        for (auto &kv : g_pool)
+            if (kv.first != "reset" && kv.first != "bufctor")
+                ops.push_back(kv.first);
+        int per = th ? 1200 : 160;
+        for (auto &op : ops)
+        {
+            auto &v = g_pool[op];
+            for (int i = 0; i < per; i++)
+            {
+                int n = (int)r.range(2, 4);
+                int t = r.chance(25) ? (int)r.range(1, n - 1) : -1;
+                str line = "re";
+                for (int k = 0; k < n; k++)
+                    line += str(k ? " / " : " ") + (k == t ? "@t " : "") + v[r.below(v.size())];
+                P("%s\n", line.c_str());
+            }
+        }
+        for (int i = 0; i < (th ? 6000 : 800); i++)
+        {
+            int n = (int)r.range(2, 5);
+            str line = "re";
+            for (int k = 0; k < n; k++)
+            {
+                auto &v = g_pool[ops[r.below(ops.size())]];
+                line += str(k ? " / " : " ") + (r.chance(10) ? "@t " : "") + v[r.below(v.size())];
+            }
+            P("%s\n", line.c_str());
+        }
+    }
+    // (b) boundary parameters, permanently in the stream: argcmax 0, 1, words-1, words, words+1
+    //     for lines of 0..12 words; maxsize 0 .. needed+2 of replace_substrings
+    for (int words = 0; words <= 12; words++)
+    {
+        str line = r.chance(50) ? " " : "";
+        for (int k = 0; k < words; k++)
+            line += str(1, (char)('a' + k)) + (k + 1 < words || r.chance(50) ? (r.chance(50) ? " " : "\t ") : "");
+        std::set<int> ms = {0, 1, words - 1, words, words + 1};
+        for (int m : ms)
+            if (m >= 0)
+                P("argv %s %d\nargvn %s %d\n", H(line).c_str(), m, H(line).c_str(), m);
+    }
+    {
+        std::vector<str> pats;
+        all_strings("a.", 2, [&](const str &s) { pats.push_back(s); });
+        all_strings("a.", th ? 5 : 4, [&](const str &s) {
+            for (auto &p : pats)
+                for (auto &q : {str(""), str("."), str("aa."), str("a")})
+                {
+                    size_t full = ref_replace(s, p, q).size();
+                    for (size_t m = 0; m <= full + 2; m++)
+                        if (th || m <= 1 || m + 2 >= full)
+                            P("rsub %zu %s %s %s\n", m, H(s).c_str(), H(p).c_str(), H(q).c_str());
+                }
+        });
+    }
+    // (c) replace_substrings in place (buffer == input), replacement as long as the pattern
+    {
+        std::vector<str> pats;
+        all_strings("a.", 2, [&](const str &s) { pats.push_back(s); }, 1);
+        all_strings("a.", th ? 5 : 4, [&](const str &s) {
+            for (auto &p : pats)
+                for (auto &q : pats)
+                    if (p.size() == q.size())
+                    {
+                        P("rsubip %s %zu %s %s\n", H(s + "Z").c_str(), s.size(), H(p).c_str(), H(q).c_str());    // room for the terminator
+                        P("rsubip %s %zu %s %s\n", H(s + "ZYX").c_str(), s.size(), H(p).c_str(), H(q).c_str()); // generous
+                        if (!s.empty())
+                            P("rsubip %s %zu %s %s\n", H(s).c_str(), s.size(), H(p).c_str(), H(q).c_str()); // maxsize == inlen: last byte cut
+                    }
+        });
+    }
+    // (d) long inputs: boundary lengths and >= 300 KiB through every linear routine
+    {
+        // sel: which routines (quick tier: the 300 KiB inputs go through a selection, the model
+        // driver needs about a second for each; thorough: all of them)
+        auto each = [&](size_t count, const str &unit, const str &tail, const char *sel = 0) {
+            str a = std::to_string(count) + " " + H(unit) + " " + H(tail);
+            auto on = [&](char c) { return th || !sel || strchr(sel, c); };
+            if (on('c')) P("long %s splitc @ 20\n", a.c_str());
+            if (on('d')) P("long %s splitd @ 202c\n", a.c_str());
+            if (on('q')) P("long %s cmdargs @\n", a.c_str());
+            if (on('t')) P("long %s trim @\n", a.c_str());
+            if (on('m')) P("long %s memmem @ 6162\nlong %s memmem @ %s\n", a.c_str(), a.c_str(), H(tail.empty() ? unit : tail).c_str());
+            // the model's replace loop costs (matches x length): many matches only on the short inputs
+            if (on('r')) P("long %s replace @ %s 6262\n", a.c_str(), unit.size() * count > 8192 ? "6162" : "61");
+            if (on('s')) P("long %s rsub %zu @ 6120 2e\n", a.c_str(), (size_t)r.range(0, (long)(unit.size() * count + 2)));
+            if (on('a')) P("long %s argv @ 10\n", a.c_str());
+            if (on('n')) P("long %s argvn @ 10\n", a.c_str());
+            if (on('l')) P("long %s creader @\n", a.c_str());
+            if (on('h')) P("long %s msh @ 61\n", a.c_str());
+            if (on('p')) P("long %s pnext @\nlong %s piter @\n", a.c_str(), a.c_str());
+        };
+        for (size_t n : {255, 256, 257, 4095, 4096, 4097})
+        {
+            each(n, "a", "");
+            each(n - 1, "a", " ");
+        }
+        if (th)
+            for (size_t n : {65535, 65536, 65537})
+                each(n, "a", "");
+        // 300 KiB: about 1000 tokens / lines / matches of 307 bytes each
+        str w300(299, 'a');
+        each(1001, w300 + " a, b\n", "", "dtma");
+        each(1001, " " + w300 + "/./a\"b\r\n", "x", "-");
+        // 300 KiB without any delimiter, of white space only, of one-character path components
+        each(307200, "a", "", "tm");
+        each(307200, " ", "", "dtah");
+        each(153600, "a/", "", "cp");
+        {
+            // a periodic needle (every position a candidate), 300 matches of a 65-byte pattern
+            str nd = str(127, 'a') + "b", u1k = str(1023, 'a') + "b", n64 = str(64, 'a') + "b";
+            P("long 307200 61 62 memmem @ %s\nlong 307200 61 - memmem @ %s\n", H(nd).c_str(), H(nd).c_str());
+            P("long 300 %s - replace @ %s 2e\n", H(u1k).c_str(), H(n64).c_str());
+            if (th)
+            {
+                P("long 300 %s - rsub 300000 @ %s 2e2e\n", H(u1k).c_str(), H(n64).c_str());
+                P("long 300 %s - rsub 310000 @ 62 2e2e2e\n", H(u1k).c_str());
+            }
+        }
+        // join of 1000 tokens of 300 bytes
+        if (th)
+        {
+            str line;
+            for (int k = 0; k < 1000; k++)
+                line += " @";
+            P("long 300 61 - join 2c%s\nlong 300 61 - joinf 2c20 5b 5d%s\n", line.c_str(), line.c_str());
+        }
+    }
+}
+
 static void gen(rng &r, const std::string &tier)
 {
     bool th = tier == "thorough";
@@ -1780,6 +2302,12 @@ static void gen(rng &r, const std::string &tier)
             P("argv %s %d\nargvn %s %d\n", lh.c_str(), (int)r.range(0, 12), lh.c_str(), (int)r.range(0, 12));
         }
     }
+    // (4) round 3: fixed-address cases, boundary parameters, long inputs, pre-main calls, constants
+    gen3(r, th);
 }
 
-int main(int argc, char **argv) { return main_(argc, argv, gen, run_op); }
+int main(int argc, char **argv)
+{
+    g_in_main = true;
+    return main_(argc, argv, gen, run_op);
+}
